@@ -195,6 +195,9 @@ var bufPlans = []lzwork.ReadPlan{{Kind: "fixed", K: 1}, {Kind: "fixed", K: 7}, {
 // exec runs one hostile input through the real Reader and judges what was observed.
 // stopAfter < 0: read to the end.
 func (c *ctx) exec(what string, in []byte, crc bool, v verdict, src lzwork.Source, rp lzwork.ReadPlan, stopAfter int64) {
+	if c.o.Poisoned {
+		return // a spinning call is still burning CPU in this process: the case is over
+	}
 	c.o.Evals++
 	m := modeName(crc)
 	declared := max(v.declared, 0)
@@ -222,6 +225,16 @@ func (c *ctx) exec(what string, in []byte, crc bool, v verdict, src lzwork.Sourc
 	}
 	violate := func(key, format string, a ...any) {
 		c.add(vrt.Violation{Key: key, Desc: what + " [" + m + ", " + src.String() + ", buf " + rp.String() + "]: " + fmt.Sprintf(format, a...), Detail: det()})
+	}
+	if res.Spun {
+		c.o.Poisoned = true
+		violate("no-termination:cpu-spin", "one decompression (NewReader, Reads, Close) burnt %v of CPU time without any call returning: a call spins", lzwork.SpinCPU)
+		return
+	}
+	if res.Abandoned {
+		c.o.Poisoned = true
+		c.o.Inconclusive = append(c.o.Inconclusive, what+": decompression neither returned nor used CPU within "+lzwork.SpinWall.String())
+		return
 	}
 	if res.Panic != nil {
 		w := *res.Panic
@@ -299,6 +312,13 @@ func (c *ctx) exec(what string, in []byte, crc bool, v verdict, src lzwork.Sourc
 			for i, dirt := range dirtyStreams() {
 				lzwork.Decompress(dirt, true, lzwork.Sources[0], bufPlans[3], big)
 				again := lzwork.Decompress(in, crc, src, rp, lim)
+				if again.Spun || again.Abandoned {
+					c.o.Poisoned = true
+					if again.Spun {
+						violate("no-termination:cpu-spin", "a repeated decompression burnt %v of CPU time without any call returning: a call spins", lzwork.SpinCPU)
+					}
+					return
+				}
 				c.o.Count("history_independence_decodes", 1)
 				if again.Panic == nil && again.NewErr == nil && again.Closed && again.CloseErr == nil && !bytes.Equal(again.Out, res.Out) {
 					violate("close-nil:history-dependent", "Close() == nil twice for the same stream, but the bytes read differ after an unrelated message #%d was decoded in between: the decoding is not a function of the stream", i)
